@@ -283,9 +283,23 @@ def controls(draw, spec, feat):
         kinds = ['tank', 'tank', 'hyst', 'hyst', 'double', 'conflict']
         if use_p:
             kinds += ['press', 'press_hyst']
+        if valves:
+            kinds += ['vset', 'vset', 'vset']
         kind = draw(st.sampled_from(kinds))
         t = draw(st.sampled_from(tanks))
-        if kind == 'tank':
+        if kind == 'vset':
+            # a valve setting commanded at a tank level (the simulator derives a 'status ACTIVE' companion control
+            # from it that shares the condition object)
+            v = draw(st.sampled_from(valves))
+            vt = v['type']
+            if vt == 'TCV':
+                s = draw(st.sampled_from([0.0, 2.0, 20.0, 200.0]))
+            elif vt == 'PRV':
+                s = draw(st.sampled_from([10.0, 20.0, 30.0, 40.0]))
+            else:
+                s = r(spec['meta']['qm'] * draw(st.sampled_from([0.3, 0.8, 1.5, 3.0])), 5)
+            add(tank_cond(t, draw(st.booleans()), level_thr(t)), {'link': v['name'], 'attr': 'setting', 'value': s})
+        elif kind == 'tank':
             up = draw(st.booleans())
             add(tank_cond(t, up, level_thr(t)), action())
         elif kind == 'hyst':
